@@ -1,3 +1,3 @@
-CONSTANTS Want = {"C38_Valid", "C38_RoundTrip", "C38_DomainCovered", "Conforms"} MinLen = 4 MinTok = 9
+CONSTANTS Want = {"C38_Valid", "C38_RoundTrip", "C38_DomainCovered", "Conforms"} MinLen = 4 MinTok = 8
 SPECIFICATION TSpec
 CHECK_DEADLOCK FALSE
